@@ -534,7 +534,29 @@ def argv_filepos__explain(i, j):
     return d
 
 
+# ---- -O<level> with a symbolic level (numeric range beyond the token-length bound of argv_token)
+def argv_level(level: int, first: bool) -> bool:
+    """
+    pre: -40 <= level <= 40
+    post: _
+    """
+    return _token_ok('-O' + str(level), first)
+
+
+def argv_level__reach(level: int, first: bool) -> bool:
+    """
+    pre: -40 <= level <= 40
+    post: not _
+    """
+    return True
+
+
+def argv_level__explain(level, first):
+    return argv_token__explain('-O' + str(level), first)
+
+
 HARNESSES = {
+    'C19/argv/option_level': dict(fn='argv_level', reach=['argv_level__reach']),
     'C19/argv/option_token': dict(fn='argv_token', reach=['argv_token__reach', 'argv_token__reach_dash'], excl='argv_token__excl',
                                   regions=[('argv_token__in_Okey', 'C19-O-level-keyerror'),
                                            ('argv_token__in_Oval', 'C19-O-level-valueerror'),
